@@ -2126,6 +2126,16 @@ func cliFixedMatrix() []*cliCfg {
 			}
 		}
 	}
+	// strings that are format directives for a printf-style function, in changed values and in member names
+	qa, qb := VObj("discount", VStr("none"), "k%d", VNum(1)), VObj("discount", VStr("100% sure %s %v"), "k%d", VStr("a%%b 5%"))
+	for _, bin := range [][2]string{{"v2jd", ""}, {"top", ""}, {"top", "false"}} {
+		for _, f := range []string{"", "patch", "merge"} {
+			c := &cliCfg{Bin: bin[0], V2: bin[1], Kind: "diff", F: f}
+			cliSetDocs(c, qa, qb)
+			c.Args = []cliArg{{Content: cliJSON(qa)}, {Content: cliJSON(qb)}}
+			out = append(out, c)
+		}
+	}
 	// numbers that differ by less than the precision and nothing else (v2 Diff ignores the precision, v1 honours it): the
 	// exit status must follow what the program PRINTS
 	pa, pb := VObj("name", VStr("probe"), "temp", VNum(20)), VObj("name", VStr("probe"), "temp", VNum(20.04))
